@@ -408,7 +408,7 @@ def check_readers_by_evaluation(chk, ix):
             chk.ok("Z9", {"reader": rn, "no other keys": True, "paths resolved against": "dirname(path)"}, nontrivial_key=(rn, "rest"))
 
 
-def check_user_define_concrete(chk, ix):
+def check_user_define_concrete(chk, ix, tier="quick"):
     """Z4 on concrete -D texts: every documented schema of parse_user_define (constant folding)."""
     chk.rule("Z4", WHAT["Z4"])
     f = ix.func("behave.userdata:parse_user_define")
@@ -416,6 +416,21 @@ def check_user_define_concrete(chk, ix):
              ('name="value"', ("name", "value")), ("name='value'", ("name", "value")), ("  name = value  ", ("name", "value")),
              ('person = "Alice"', ("person", "Alice")), ('count = "42"', ("count", "42")), ('person=" Alice "', ("person", " Alice ")),
              ("url=http://x/?a=b", ("url", "http://x/?a=b")), ("empty=", ("empty", "")), ("a=b=c", ("a", "b=c")), ("flag ", ("flag", "true"))]
+    # generated: name x padding x quoting x value (the documented schemas combined)
+    gen = []
+    for name in ("n", "a.b"):
+        for value in ("v", "4 2", "x=y", "", "it's"):
+            for pad_l, pad_r in (("", ""), (" ", " "), ("  ", "")):
+                for q in ("", '"', "'"):
+                    if q and q in value:
+                        continue
+                    gen.append(("%s%s=%s%s%s%s" % (name, pad_l, pad_r, q, value, q), (name, value)))
+                    if not q:
+                        continue
+                    gen.append(("%s%s%s=%s%s%s" % (q, name, pad_l, pad_r, value, q), (name, value)))
+    have = {c[0] for c in cases}
+    gen = [g for g in gen if g[0] not in have and not (g[1][1] == "" and g[0].endswith(" "))]
+    cases = cases + (gen if tier == "thorough" else gen[::4])
     it = Interp(ix, name="parse_user_define")
     it.int_sat = 1000
     it.list_cap = 100
